@@ -27,8 +27,8 @@ PROPS = ["C06", "C09", "C12", "C16", "C17", "C18", "C19"]
 
 BUDGET = {
     # runs, determinism pairs, wall cap (s)
-    "quick": {"C06": (900, 40, 300), "C12": (900, 60, 300), "C09": (2000, 30, 300), "C16": (2500, 30, 300),
-              "C17": (2500, 60, 300), "C18": (1200, 30, 300), "C19": (800, 30, 300)},
+    "quick": {"C06": (900, 40, 300), "C12": (900, 100, 300), "C09": (2000, 30, 300), "C16": (2500, 30, 300),
+              "C17": (2500, 120, 300), "C18": (1200, 30, 300), "C19": (800, 30, 300)},
     "thorough": {"C06": (12000, 300, 3000), "C12": (12000, 400, 3000), "C09": (40000, 300, 3000),
                  "C16": (40000, 300, 3000), "C17": (40000, 400, 3000), "C18": (15000, 300, 3000),
                  "C19": (8000, 300, 3000)},
@@ -167,7 +167,7 @@ def run_check(prop, tier, seed, runs=None, workers=None, wall_cap=None):
               % (prop, len(mismatches), pairs_compared, procs.HASH_SEEDS[0], procs.HASH_SEEDS[1], mismatches[:10]), flush=True)
 
     enum = None
-    if prop == "C12" and not runs:
+    if prop in ("C12", "C17") and not runs:
         enum = run_enum(prop, tier, seed, workers, deadline + 600, findings)
         harness_errors += enum["errors"]
         for payload in enum["replays"]:
@@ -189,7 +189,9 @@ def run_check(prop, tier, seed, runs=None, workers=None, wall_cap=None):
             "items": enum["items"], "abort_points": enum["points"], "aborts_delivered": enum["fired"],
             "failing_points": enum["failures"], "landing_files": enum["landing"], "samples": enum["samples"],
             "complete": bool(enum.get("complete")),
-            "what": "for each small item, resolve_all() over a shared library and read_fragments(fragment_dict=shared) were aborted at EVERY cgsmiles line index 1..N in a pristine fork; afterwards the library snapshot and a fresh resolver over the same library were compared with the reference"}
+            "what": ("for each small item, resolve_all() over a shared library and read_fragments(fragment_dict=shared) were aborted at EVERY cgsmiles line index 1..N in a pristine fork; afterwards the library snapshot and a fresh resolver over the same library were compared with the reference")
+                    if prop == "C12" else
+                    ("for each small configuration, a seeded construct-and-sample (over a fragment dict shared within the history, or from the string) was aborted at EVERY cgsmiles line index 1..N in a pristine fork; the same seeded construct-and-sample executed right afterwards must return exactly the pristine reference molecule and pass all per-molecule oracles")}
     coverage.update({
         "runs_planned": n_runs, "runs_executed": len(executed), "runs_rejected_by_admission": len(rejected),
         "runs_per_hour": int(len(executed) / max(wall, 1e-6) * 3600),
@@ -226,13 +228,13 @@ def run_check(prop, tier, seed, runs=None, workers=None, wall_cap=None):
     return 0
 
 
-ENUM_ITEMS = {"quick": 2, "thorough": 24}
+ENUM_ITEMS = {"quick": {"C12": 2, "C17": 1}, "thorough": {"C12": 24, "C17": 12}}
 
 
 def run_enum(prop, tier, seed, workers, deadline, findings):
     """Exhaustive abort-point enumeration over small items (C12, DESIGN 4/C12)."""
     from sim.core import H
-    n_items = ENUM_ITEMS[tier]
+    n_items = ENUM_ITEMS[tier][prop]
     probes = [{"prop": prop, "mode": "enum_probe", "item_seed": H(seed, "enum-item", i)} for i in range(n_items)]
     results, errors = procs.run_tasks(probes, n_workers=workers, deadline=deadline)
     tasks = []
@@ -242,7 +244,7 @@ def run_enum(prop, tier, seed, workers, deadline, findings):
             continue
         items += 1
         probe = res["probe"]
-        for which in ("resolve_all", "grow"):
+        for which in [w for w in ("resolve_all", "grow", "cs") if w in probe]:
             ks = list(range(1, probe[which] + 1))
             for start in range(0, len(ks), 120):
                 tasks.append({"prop": prop, "mode": "enum_points", "item_seed": res["item_seed"], "which": which,
